@@ -90,6 +90,7 @@ class Sched:
         self.threads = []
         self.current = None
         self.choices = list(choices)
+        self.wall_offset = 0.0
         self.fallback = fallback  # the decision once `choices` is used up: 0 = the running thread goes on, 1 = always hand over to the next one
         self.ci = 0
         self.events = []
@@ -128,7 +129,14 @@ class Sched:
         self.at(self.now + dt, fn)
 
     def time(self):
-        return EPOCH + self.now
+        # the wall clock (time.time): it can be set - also backwards - while the process runs; monotonic clocks and waits are not affected
+        return EPOCH + self.now + self.wall_offset
+
+    def step_wall_clock(self, at, delta):
+        def step():
+            self.wall_offset += delta
+
+        self.at(at, step)
 
     # -- running -----------------------------------------------------------
     def run(self, main, *args, wall_limit=30.0, **kw):
